@@ -144,6 +144,36 @@ def scenarios():
             G.generate(req_files(package, dep=False), "autogen-snippets=false", to_generate=[f"{package.replace('.', '/')}/things.proto"])
         except Exception as e:       # noqa
             failures.append({"package": package, "what": "generation failed", "error": repr(e)[:160], "known": known})
+    # a target file that declares a service and nothing else still has its types module (one per target proto file)
+    cases += 1
+    fs = req_files("acme.lab.v1")
+    so = G.new_file("acme/lab/v1/admin_service.proto", "acme.lab.v1", deps=G.STD_DEPS + ["acme/lab/v1/things.proto"])
+    G.add_method(G.add_service(so, "Admin"), "GetAdmin", ".acme.lab.v1.Req0", ".acme.lab.v1.Resp0", http=("get", "/v1/{name=admin/*}"))
+    try:
+        api, res = G.generate(fs + [so], "autogen-snippets=false", to_generate=["acme/lab/v1/things.proto", "acme/lab/v1/admin_service.proto"])
+        check_response({"package": "acme.lab.v1", "files": ["things.proto", "admin_service.proto (service only)"]}, res, api, "acme/lab_v1",
+                       ["things.proto", "admin_service.proto"], ["lab", "archive", "admin"], failures)
+    except Exception as e:       # noqa
+        failures.append({"what": "generation failed for a service-only target file", "error": repr(e)[:200]})
+    # a types-only sub-package below the versioned package: its directories are packages too
+    cases += 1
+    fs = req_files("acme.lab.v1")
+    sp = G.new_file("acme/lab/v1/common/shapes.proto", "acme.lab.v1.common")
+    G.add_message(sp, "Shape", [G.F("sides", 1, G.T.TYPE_INT32)])
+    try:
+        api, res = G.generate(fs + [sp], "autogen-snippets=false", to_generate=["acme/lab/v1/things.proto", "acme/lab/v1/common/shapes.proto"])
+        names = [f.name for f in res.file]
+        if "acme/lab_v1/common/types/shapes.py" not in names:
+            failures.append({"what": "no types module for the target file of a sub-package", "want": "acme/lab_v1/common/types/shapes.py"})
+        for d_ in sorted({n.rsplit("/", 1)[0] for n in names if n.endswith(".py") and n.startswith("acme/lab_v1/")}):
+            cur = d_
+            while len(cur) >= len("acme/lab_v1"):
+                if cur + "/__init__.py" not in names:
+                    failures.append({"what": "directory on an import path without __init__.py", "dir": cur, "layout": "sub-package acme.lab.v1.common"})
+                    break
+                cur = cur.rsplit("/", 1)[0]
+    except Exception as e:       # noqa
+        failures.append({"what": "generation failed for an API with a types-only sub-package", "error": repr(e)[:200]})
     # two target files with the same base name in different directories
     cases += 1
     fs = req_files("acme.lab.v1", ("x.proto",), dep=False)
